@@ -74,7 +74,7 @@ def second_reading(chk, ctx, mod, repo, tier):
     import ast
     from . import interp as I
     from .context import Context
-    if chk.pid in ('C07', 'C09'):
+    if chk.pid in ('C07', 'C09', 'C20'):
         # which exception types can escape also depends on -b / -bb:
         # str() of a bytes value raises BytesWarning there
         I.BYTES_WARNINGS = True
